@@ -60,10 +60,7 @@ func c02(c *q.Ctx) {
 		utxo + "(*UtxoVM).UpdateUtxoTotal": "the only mutator",
 		utxo + "(*UtxoVM).ReloadTotal":     "re-read from the meta table after an operation failed before its batch was written",
 	}, "the in-memory total has one mutator")
-	if rt := c.Fn(utxo + "(*UtxoVM).ReloadTotal"); rt != nil {
-		c.StoreIs(rt, "UtxoVM.utxoTotal", "big.NewInt(0){SetBytes(i:Database.Get(p0.metaHandle.MetaTable,\"xtotal\")#0)}", 1, "what is re-installed is the persisted total (or zero when none was written yet)")
-		c.WhoCalls("UtxoVM.ReloadTotal", map[string]string{"bcs/ledger/xledger/state::(*State).ClearCache": "cache invalidation after a failed operation"}, "the total is re-read only as part of invalidating the caches")
-	}
+	reloadTotalRules(c)
 	if up := c.Fn(utxo + "(*UtxoVM).UpdateUtxoTotal"); up != nil {
 		c.ArgIs(up, "Batch.Put", 1, "*big.(*Int).Bytes(p0.utxoTotal)*", 1, "the persisted total is the in-memory total")
 		c.Before(up, q.ToCall("Batch.Put"), q.ToReturn(), "every change of the in-memory total is staged in the caller's batch, in both directions")
@@ -143,5 +140,16 @@ func zeroOutputTest(c *q.Ctx) {
 			continue
 		}
 		c.CondCount(f, zero, 1, "an output is skipped exactly when its amount is zero")
+	}
+}
+
+// reloadTotalRules (C02, C05): ClearCache takes the in-memory total back to what the meta table says.
+func reloadTotalRules(c *q.Ctx) {
+	const utxo = "bcs/ledger/xledger/state/utxo::"
+	if rt := c.Fn(utxo + "(*UtxoVM).ReloadTotal"); rt != nil {
+		c.StoreIs(rt, "UtxoVM.utxoTotal", "big.NewInt(0){SetBytes(i:Database.Get(p0.metaHandle.MetaTable,\"xtotal\")#0)}", 1, "what is re-installed is the persisted total (or zero when none was written yet)")
+		// ... on every path except a real storage error: `not found` means nothing was ever committed, i.e. zero
+		c.Then(rt, q.ToCall("kvdb::Database.Get"), q.ToFieldStore("UtxoVM.utxoTotal"), q.ToAnyReturn(), []q.Cond{{Canon: "(def.NormalizedKVError(i:Database.Get(p0.metaHandle.MetaTable,\"xtotal\")#1) == g:ErrKVNotFound)", Sense: false}}, "the in-memory total is re-installed unless the table cannot be read")
+		c.WhoCalls("UtxoVM.ReloadTotal", map[string]string{"bcs/ledger/xledger/state::(*State).ClearCache": "cache invalidation after a failed operation"}, "the total is re-read only as part of invalidating the caches")
 	}
 }
